@@ -1,46 +1,57 @@
 /-
-C16 — property theorems (only). Model: `HydroVerif/Model/C16.lean` (+ grid geometry of `Model/C07.lean`);
-helper lemmas: `Lemmas/C16.lean`, `Lemmas/C07Grid.lean`, `Lemmas/C07Coord.lean`.
+C16 — property theorems (only). Model: `HydroVerif/Model/C16.lean`, `Model/C16Hist.lean` (+ grid geometry of
+`Model/C07.lean`); helper lemmas: `Lemmas/C16.lean`, `Lemmas/C16Rnd.lean`, `Lemmas/C16Hist.lean`, `Lemmas/C07Grid.lean`,
+`Lemmas/C07Coord.lean`.
 
 Part A holds for every numeric instance of the model (also the `Float` one the driver runs): it only uses the
-integer structure of the loops. Parts B–E are over any ordered field with a floor function (`ℚ`, `ℝ`): exact
-arithmetic; IEEE rounding is covered by the correspondence, not by these theorems. Every statement holds for all
-grid shapes, all cell lists (any length, any order, repeats, invalid numbers where stated), all point lists.
-Every model function named here is executed by `Drivers/C16.lean` and compared with the real code.
+integer structure of the loops and the order of the loop's own additions. Parts B–E are over any ordered field with a
+floor function (`ℚ`, `ℝ`): exact arithmetic. Part F is about the model instantiated at rounded arithmetic (`Fl r`,
+`Lemmas/C16Rnd.lean`: any monotone idempotent rounding operator that is exact on small naturals — IEEE-754
+round-to-nearest is one): ranges, order, exact integer counts and error bounds that are true of the floating-point
+computation itself. Part G is about histories of operations on live objects (`Model/C16Hist.lean`), for every numeric
+instance. Every statement holds for all grid shapes, all cell lists (any length, any order, repeats, invalid numbers
+where stated), all point lists, all operation lists. Every model function named here is executed by
+`Drivers/C16.lean` and compared with the real code (`specWeight`/`specArea`: request `specQ`; `repAdd`: `repadd`;
+`hrun`/`hfinal`/`Op.isMutator`: `hist`).
 
 Clause of the property -> theorems -> what stays outside the theorems
 * Intersecting a catchment with a coarser grid assigns every catchment cell whose centre falls inside the grid to exactly one grid cell (all cell sets, all grids, arbitrary offsets, partial or no overlap)
-    theorems: centre_inside_listed_once, centre_outside_not_counted, cellOfPt_nonneg_iff, cellOfPt_eq_iff, cIntersect_mem_keys_iff, intersect_error_iff (no overlap <-> the ValueError)
-    outside: exact arithmetic (ordered field with floor); a centre within 1e-9 cells of a coarse edge may be located differently in IEEE arithmetic (Float correspondence only). 'inside' = half-open extent, footprints half-open: an edge centre goes right/up.
+    theorems: centre_inside_listed_once, centre_outside_not_counted, cellOfPt_nonneg_iff, cellOfPt_eq_iff, cIntersect_mem_keys_iff, intersect_error_iff (no overlap <-> the ValueError), cIntersect_dims_pos / intersect_ok_dims (a listed cell implies nrows, ncols > 0: no hypothesis on the shape), cellOfPt_rounded_mono (rounded arithmetic: locating is monotone in each coordinate; a centre is never moved past another centre's cell), cellOfPt_iff_needs_pos_csz (the hypothesis 0 < cell size is needed; the code does not guard it)
+    outside: exact arithmetic (ordered field with floor); a centre within 1e-9 cells of a coarse edge may be located differently in IEEE arithmetic (Float correspondence only). 'inside' = half-open extent, footprints half-open: an edge centre goes right/up. Cell size <= 0 (plain attribute, never validated) is outside the quantifier: correspondence only (stream `degenerate`).
 * its weight is the number of such cells times the ratio of cell areas
-    theorems: intersect_result_weight (on the returned lists, any cell list), intersect_weight_counts_centres_any, intersect_weight_counts_centres, cIntersect_weight
-    outside: rounding of the repeated addition (Float correspondence, bit-exact on the unchanged tree)
+    theorems: intersect_result_weight (on the returned lists, any cell list), intersect_matches_spec (= the executable statement specWeight the driver evaluates), intersect_weight_counts_centres_any, intersect_weight_counts_centres, cIntersect_weight, cIntersect_weight_repAdd (EVERY arithmetic, also Float: the weight is areafactor, then += areafactor, count - 1 times, in this order), cIntersect_rounded_weight_ge / _mono / _error (rounded arithmetic: weight >= areafactor >= 0, order of counts preserved, |w - n af| <= ((1+u)^(n-1) - 1) n af)
+    outside: nothing but the instance: that IEEE-754 double arithmetic is a `Rounding` (monotone, idempotent, exact on naturals <= 2^53, relative error 2^-53) is not formalised; the Float instance is executed and compared bit for bit, the weights also against repAdd at the oracle's exact counts
 * weights times grid-cell area sum to the catchment area inside the grid
-    theorems: intersect_result_area (on the returned weights), intersect_area_conserved_any, intersect_area_conserved, cIntersect_total
-    outside: rounding
+    theorems: intersect_result_area (on the returned weights), intersect_matches_spec (= specArea), intersect_area_conserved_any, intersect_area_conserved, cIntersect_total, history_intersect_conserves_area (after any history of edits, clones, combinations, rejected operations and other calls)
+    outside: rounding of the sum (each term bounded by cIntersect_rounded_weight_error)
 * each grid cell appears once
-    theorems: intersect_result_nodup, cIntersect_keys_nodup (every numeric instance, also Float), cIntersect_keys_valid, cIntersect_length_le (buffers large enough)
+    theorems: intersect_result_nodup, cIntersect_keys_nodup (every numeric instance, also Float), cIntersect_keys_valid, cIntersect_length_le (buffers large enough), intersect_never_overflow_or_badData (the model's memory-safety error value is never returned)
     outside: nothing
 * the returned weight grid places every weight at the matching row and column of the parent grid
-    theorems: intersect_weight_placed, intersect_zero_elsewhere, intersect_entry_cases (every entry is a listed weight at its parent row/col, or 0), intersect_subgrid_range (attained bounds, shape), intersect_subgrid_corner, intersect_subgrid_cell_centre (sub-grid cell (i,j) = parent cell (i+rows_start, j+cols_start)), intersect_lists
-    outside: numpy fancy-index assignment, np.min/np.max/np.unique, Grid constructor/data setter are modelled (sequential element assignment, folds), tied by the correspondence; parent name/ncols/nrows/cellsize/corner attributes copied by set_parent_attributes are checked by the oracle only (plain attribute copies)
+    theorems: intersect_weight_placed, intersect_zero_elsewhere, intersect_entry_cases (every entry is a listed weight at its parent row/col, or 0), intersect_subgrid_range (attained bounds, shape), intersect_subgrid_corner, intersect_subgrid_cell_centre (sub-grid cell (i,j) = parent cell (i+rows_start, j+cols_start), with the weight grid's own cell size), intersect_parent_attributes (cellsize and parentgrid_nrows/ncols/cellsize/xllcorner/yllcorner are the intersected grid's), intersect_never_overflow_or_badData (the shape guards of the Grid.data setter never fire), intersect_lists
+    outside: numpy fancy-index assignment, np.min/np.max/np.unique are modelled (sequential element assignment, folds), tied by the correspondence; parentgrid_name and the comment string are not modelled (strings the property does not constrain)
 * filled / unfilled area
-    theorems: catchment_intersect_selects, catchment_intersect_error_iff, voronoiPy_points (Voronoi always uses the unfilled area)
-    outside: how the two lists are produced (delineate_area, binary_fill_holes, from_dict): C06 / C13
+    theorems: catchment_intersect_selects, catchment_intersect_default (no argument = unfilled), catchment_intersect_error_iff, voronoiPy_points (Voronoi always uses the unfilled area), catchment_add_area / catchment_sub_area (which cells a sum / difference of catchments has: union / difference of the FILLED areas, left operand's grid and filled area)
+    outside: how delineate_area / binary_fill_holes / from_dict produce the two lists: C06 / C13
 * Voronoi weights are non-negative
-    theorems: cVoronoi_nonneg, cVoronoi_ok_inv
+    theorems: cVoronoi_nonneg, cVoronoi_rounded_range (rounded arithmetic: every weight in [0, 1]), cVoronoi_ok_inv
     outside: needs >= 1 cell (0 cells: NaN in the code, `none` in the model: cVoronoi_noCells)
 * Voronoi weights sum to 1
-    theorems: cVoronoi_sum_one
-    outside: rounding of count/ncells and of the sum (oracle: 1e-12)
+    theorems: cVoronoi_sum_one, cVoronoi_rounded_sum (rounded arithmetic: |sum - 1| <= u, the sum taken exactly), cVoronoi_rounded_weight (counts are exact integers, weight j = rnd(count_j / ncells))
+    outside: the rounding of the final summation by the caller (oracle: exact sum of the returned doubles within 1e-12)
 * Voronoi weights equal the fraction of catchment cells closest to each point; equidistant ties resolved to the lowest index; 1 to 6 points anywhere (any number in the theorems)
-    theorems: cVoronoi_weight, nearest_is_closest_lowest_index, voronoiPy_points, voronoiPy_flat_pair
-    outside: the distance function is a parameter (any function; sqrt(dx*dx+dy*dy) in the driver): two distinct points within rounding of a tie may be ordered differently in IEEE arithmetic; NaN / inf coordinates are outside the quantifier and not sent to the model
-* (implicit) rejected input of the wrappers: no overlap, no points, grid without rows/columns, catchment not delineated, points argument without two columns
+    theorems: cVoronoi_weight, nearest_is_closest_lowest_index, nearest_rounded_is_first_argmin (rounded arithmetic: smallest COMPUTED distance, lowest index among equal computed distances), cVoronoi_rounded_weight, voronoiPy_points, voronoiPy_flat_pair
+    outside: the distance function is a parameter (any function; sqrt(dx*dx+dy*dy) in the driver): two distinct points within rounding of a tie may be ordered differently in IEEE arithmetic than in exact arithmetic; NaN / inf coordinates are outside the quantifier and not sent to the model. How the points are laid out in memory (C / Fortran order, strided views, lists, tuples) is not modelled: the harness hands every representation to grid.voronoi and requires the same answer (defect fixed on fix-C16: Fortran-ordered arrays were rejected)
+* (implicit) rejected input of the wrappers: no overlap, no points, grid without rows/columns, catchment not delineated, points argument without two columns, negative buffer size
     theorems: intersect_error_iff, catchment_intersect_error_iff, cVoronoi_error_iff, cVoronoi_noPoints, voronoiPy_error_iff
-    outside: exception classes and messages are incidental: the correspondence requires a rejection where the model rejects and the named guard when the harness can attribute it; 3-D points arrays, ragged lists, non-numeric input: numpy's own errors, not modelled
+    outside: which guard / exception class / message rejects is incidental: the correspondence requires a rejection exactly where the model rejects; 3-D points arrays, ragged lists, non-numeric input: numpy's own errors, not modelled
+* (implicit) the answers depend on the objects as they are at the time of the call, on nothing else: histories of calls, in-place edits of held and returned arrays, re-assigned geometry, clones, sums / differences of catchments, rejected operations
+    theorems: hstep_call_keeps_objects, hstep_rejected_keeps_objects, hfinal_eq_filter, hrun_reply, hrun_length, history_intersect_reply, history_voronoi_reply, hstep_other_objects (a clone and its original are independent), history_intersect_conserves_area
+    outside: that the Python objects behave as the model's World (attribute assignment, deepcopy, pickle) is tied by the history stream: every call's answer is compared with hrun on the same operation list, the state is tracked from the assigned values and never re-read after a call
 -/
 import HydroVerif.Lemmas.C16
+import HydroVerif.Lemmas.C16Rnd
+import HydroVerif.Lemmas.C16Hist
 import Mathlib.Data.Rat.Floor
 import Mathlib.Data.List.Perm.Subperm
 
@@ -103,6 +114,35 @@ theorem cIntersect_length_le (g : Geom α) (ca : α) (pts : List (Option (α × 
   have := (h1.subperm h2).length_le
   simpa using this
 
+/-- a grid that lists a cell has rows and columns: the hypothesis `0 < ncols` of the theorems below follows from
+the kernel's own range test whenever a cell is listed -/
+theorem cIntersect_dims_pos (g : Geom α) (ca : α) (pts : List (Option (α × α))) (k : Int)
+    (hk : k ∈ (cIntersect g ca pts).map Prod.fst) : 0 < g.nrows ∧ 0 < g.ncols :=
+  cIntersect_dims g ca pts k hk
+
+/-- the weight of a listed cell *as the loop computes it*, in every arithmetic (also `Float`): the cell was met
+`n + 1` times (at least once) and its weight is `areafactor`, then `+= areafactor` `n` times, in this order -/
+theorem cIntersect_weight_repAdd (g : Geom α) (ca : α) (pts : List (Option (α × α))) {k : Int} {w : α}
+    (h : (k, w) ∈ cIntersect g ca pts) :
+    ∃ n, (pts.map (cellOfPt g)).count k = n + 1 ∧ w = repAdd (areafactor g.csz ca) n := by
+  have hk : k ∈ keys (cIntersect g ca pts) := List.mem_map.2 ⟨(k, w), h, rfl⟩
+  obtain ⟨h0, -⟩ := (cIntersect_mem_keys g ca pts k).1 hk
+  have hcount : (hits g pts).count k = (pts.map (cellOfPt g)).count k := by
+    unfold hits
+    rw [List.count_filter]
+    simpa using h0
+  have hw := wLook_of_mem (cIntersect_nodup g ca pts) h
+  rw [cIntersect_eq, wLook_foldl_bump, hcount] at hw
+  cases hn : (pts.map (cellOfPt g)).count k with
+  | zero =>
+    rw [hn] at hw
+    simp [wLook] at hw
+  | succ n =>
+    rw [hn] at hw
+    simp only [wLook] at hw
+    injection hw with hw
+    exact ⟨n, rfl, hw.symm⟩
+
 end Generic
 
 /-! ### B. weights of `c_intersect` (exact arithmetic) -/
@@ -163,13 +203,14 @@ variable {α : Type} [Field α] [LinearOrder α] [IsStrictOrderedRing α] [Floor
 
 /-- the weight of a listed grid cell is `(csz_area/csz)²` times the number of catchment cells whose centre lies
 in the footprint of that grid cell -/
-theorem intersect_weight_counts_centres {coarse fine : Geom α} (hcsz : 0 < coarse.csz) (hc : 0 < coarse.ncols)
+theorem intersect_weight_counts_centres {coarse fine : Geom α} (hcsz : 0 < coarse.csz)
     {cells : List Int} (hcells : ∀ c ∈ cells, validCell fine.nrows fine.ncols c = true) {k : Int} {w : α}
     (h : (k, w) ∈ cIntersect coarse fine.csz (cells.map (cell2coord fine))) :
     w = (fine.csz / coarse.csz) ^ 2 *
       ((cells.countP fun c => decide (InFootprint coarse k (getcoord fine c).1 (getcoord fine c).2) : Nat) : α) := by
   have hk : k ∈ (cIntersect coarse fine.csz (cells.map (cell2coord fine))).map Prod.fst :=
     List.mem_map.2 ⟨(k, w), h, rfl⟩
+  have hc := (cIntersect_dims_pos _ _ _ k hk).2
   have hv := cIntersect_keys_valid _ _ _ k hk
   rw [(cIntersect_weight h).1]
   congr 2
@@ -198,12 +239,13 @@ theorem intersect_area_conserved {coarse fine : Geom α} (hcsz : 0 < coarse.csz)
   exact cellOfPt_nonneg_iff hcsz _ _
 
 /-- a catchment cell whose centre falls inside the grid is assigned to exactly one listed grid cell -/
-theorem centre_inside_listed_once {coarse fine : Geom α} (hcsz : 0 < coarse.csz) (hc : 0 < coarse.ncols)
+theorem centre_inside_listed_once {coarse fine : Geom α} (hcsz : 0 < coarse.csz)
     {cells : List Int} {c : Int} (hcm : c ∈ cells) (hv : validCell fine.nrows fine.ncols c = true)
     (hin : InExtent coarse (getcoord fine c).1 (getcoord fine c).2) :
     ∃! k, k ∈ (cIntersect coarse fine.csz (cells.map (cell2coord fine))).map Prod.fst ∧
       InFootprint coarse k (getcoord fine c).1 (getcoord fine c).2 := by
   obtain ⟨hv0, hfp⟩ := coord2cell_of_inExtent hcsz hin
+  have hc := (coord2cell_nonneg_dims coarse _ _ (validCell_iff.1 hv0).1).2
   refine ⟨coord2cell coarse (getcoord fine c).1 (getcoord fine c).2, ⟨?_, hfp⟩, ?_⟩
   · rw [cIntersect_mem_keys_iff]
     refine ⟨(validCell_iff.1 hv0).1, cell2coord fine c, List.mem_map_of_mem hcm, ?_⟩
@@ -215,16 +257,16 @@ theorem centre_inside_listed_once {coarse fine : Geom α} (hcsz : 0 < coarse.csz
     exact (coord2cell_of_inFootprint hcsz hc hvk hkf).symm
 
 /-- a catchment cell whose centre falls outside the grid is counted for no listed cell -/
-theorem centre_outside_not_counted {coarse fine : Geom α} (hcsz : 0 < coarse.csz) (hc : 0 < coarse.ncols)
+theorem centre_outside_not_counted {coarse fine : Geom α} (hcsz : 0 < coarse.csz)
     {cells : List Int} {c : Int}
     (hout : ¬ InExtent coarse (getcoord fine c).1 (getcoord fine c).2) (k : Int)
     (hk : k ∈ (cIntersect coarse fine.csz (cells.map (cell2coord fine))).map Prod.fst) :
     ¬ InFootprint coarse k (getcoord fine c).1 (getcoord fine c).2 := fun hkf =>
-  hout (inExtent_of_inFootprint hcsz hc (cIntersect_keys_valid _ _ _ k hk) hkf)
+  hout (inExtent_of_inFootprint hcsz (cIntersect_dims_pos _ _ _ k hk).2 (cIntersect_keys_valid _ _ _ k hk) hkf)
 
 /-- the same for an arbitrary cell list (repeats, invalid numbers): a cell number that is not a cell of the
 flow-direction grid has no centre (`cell2coord` gives NaN) and is counted nowhere -/
-theorem intersect_weight_counts_centres_any {coarse fine : Geom α} (hcsz : 0 < coarse.csz) (hc : 0 < coarse.ncols)
+theorem intersect_weight_counts_centres_any {coarse fine : Geom α} (hcsz : 0 < coarse.csz)
     {cells : List Int} {k : Int} {w : α}
     (h : (k, w) ∈ cIntersect coarse fine.csz (cells.map (cell2coord fine))) :
     w = (fine.csz / coarse.csz) ^ 2 *
@@ -232,6 +274,7 @@ theorem intersect_weight_counts_centres_any {coarse fine : Geom α} (hcsz : 0 < 
         decide (InFootprint coarse k (getcoord fine c).1 (getcoord fine c).2) : Nat) : α) := by
   have hk : k ∈ (cIntersect coarse fine.csz (cells.map (cell2coord fine))).map Prod.fst :=
     List.mem_map.2 ⟨(k, w), h, rfl⟩
+  have hc := (cIntersect_dims_pos _ _ _ k hk).2
   have hv := cIntersect_keys_valid _ _ _ k hk
   rw [(cIntersect_weight h).1]
   congr 2
@@ -283,33 +326,60 @@ end Catchment
 section Python
 variable {α : Type} [Field α] [LinearOrder α] [IsStrictOrderedRing α] [FloorRing α]
 
-/-- `intersect` fails (the `ValueError` of `np.min` on an empty array) exactly when no catchment-cell centre is
-accepted by the grid; it fails in no other way -/
+/-- `intersect` fails in exactly two ways: `np.zeros` rejects a negative buffer size (`nrows*ncols < 0`: outside the
+property's quantifier), and otherwise the `ValueError` of `np.min` on an empty array, exactly when no catchment-cell
+centre is accepted by the grid. The kernel never writes past the buffers it is given (`bufferOverflow`) and the
+weight array always passes the shape guards of the `Grid.data` setter (`badData`): those error values are never
+returned -/
 theorem intersect_error_iff (coarse fine : Geom α) (cells : List Int) (e : Err) :
     intersect coarse fine cells = .error e ↔
-      e = .noOverlap ∧ ∀ c ∈ cells, cellOfPt coarse (cell2coord fine c) < 0 := by
+      (e = .badBuffer ∧ coarse.nrows * coarse.ncols < 0) ∨
+      (e = .noOverlap ∧ 0 ≤ coarse.nrows * coarse.ncols ∧ ∀ c ∈ cells, cellOfPt coarse (cell2coord fine c) < 0) := by
   constructor
   · intro h
-    obtain ⟨he, hnil⟩ := intersect_eq_error h
-    refine ⟨he, fun c hc => ?_⟩
-    by_contra hge
-    have : cellOfPt coarse (cell2coord fine c) ∈
-        (cIntersect coarse fine.csz (cells.map (cell2coord fine))).map Prod.fst := by
-      rw [cIntersect_mem_keys_iff]
-      exact ⟨by omega, _, List.mem_map_of_mem hc, rfl⟩
-    rw [hnil] at this
-    cases this
-  · rintro ⟨rfl, hneg⟩
-    cases hres : intersect coarse fine cells with
-    | error e' => rw [(intersect_eq_error hres).1]
-    | ok a =>
-      obtain ⟨kw0, rest, heq, -⟩ := intersect_eq_ok hres
-      have : kw0.1 ∈ (cIntersect coarse fine.csz (cells.map (cell2coord fine))).map Prod.fst := by
-        rw [heq]; simp
-      obtain ⟨h0, p, hp, hpk⟩ := (cIntersect_mem_keys_iff _ _ _ _).1 this
-      obtain ⟨c, hc, rfl⟩ := List.mem_map.1 hp
-      have := hneg c hc
-      omega
+    rcases intersect_eq_error h with ⟨he, hneg⟩ | ⟨he, hpos, hnil⟩
+    · exact Or.inl ⟨he, hneg⟩
+    · refine Or.inr ⟨he, hpos, fun c hc => ?_⟩
+      by_contra hge
+      have : cellOfPt coarse (cell2coord fine c) ∈
+          (cIntersect coarse fine.csz (cells.map (cell2coord fine))).map Prod.fst := by
+        rw [cIntersect_mem_keys_iff]
+        exact ⟨by omega, _, List.mem_map_of_mem hc, rfl⟩
+      rw [hnil] at this
+      cases this
+  · rintro (⟨rfl, hneg⟩ | ⟨rfl, hpos, hneg⟩)
+    · rw [intersect_unfold, if_pos hneg]
+    · cases hres : intersect coarse fine cells with
+      | error e' =>
+        rcases intersect_eq_error hres with ⟨-, hn⟩ | ⟨he, -, -⟩
+        · omega
+        · rw [he]
+      | ok a =>
+        obtain ⟨kw0, rest, heq, -⟩ := intersect_eq_ok hres
+        have : kw0.1 ∈ (cIntersect coarse fine.csz (cells.map (cell2coord fine))).map Prod.fst := by
+          rw [heq]; simp
+        obtain ⟨h0, p, hp, hpk⟩ := (cIntersect_mem_keys_iff _ _ _ _).1 this
+        obtain ⟨c, hc, rfl⟩ := List.mem_map.1 hp
+        have := hneg c hc
+        omega
+
+/-- the two guards of the model that stand for memory safety and for the `Grid.data` setter never fire -/
+theorem intersect_never_overflow_or_badData (coarse fine : Geom α) (cells : List Int) :
+    intersect coarse fine cells ≠ .error .bufferOverflow ∧ intersect coarse fine cells ≠ .error .badData := by
+  constructor <;> intro h <;> rcases (intersect_error_iff _ _ _ _).1 h with ⟨he, -⟩ | ⟨he, -⟩ <;> cases he
+
+/-- a successful intersection implies that the grid has rows and columns (the kernel's range test accepted a
+centre): the theorems below need no hypothesis on `nrows`, `ncols` -/
+theorem intersect_ok_dims {coarse fine : Geom α} {cells : List Int} {a : AreaGrid α}
+    (h : intersect coarse fine cells = .ok a) : 0 < coarse.nrows ∧ 0 < coarse.ncols := by
+  obtain ⟨kw0, rest, heq, -⟩ := intersect_eq_ok h
+  apply cIntersect_dims_pos coarse fine.csz (cells.map (cell2coord fine)) kw0.1
+  rw [heq]; simp
+
+/-- `area_grid.cellsize` and the `parentgrid_*` attributes are those of the intersected grid -/
+theorem intersect_parent_attributes {coarse fine : Geom α} {cells : List Int} {a : AreaGrid α}
+    (h : intersect coarse fine cells = .ok a) : a.csz = coarse.csz ∧ a.parent = coarse :=
+  intersect_eq_ok_parent h
 
 /-- the returned `idxcells`, `weights` are the kernel's lists: everything proved in parts A–C applies to them -/
 theorem intersect_lists {coarse fine : Geom α} {cells : List Int} {a : AreaGrid α}
@@ -362,10 +432,11 @@ theorem intersect_subgrid_range {coarse fine : Geom α} {cells : List Int} {a : 
 /-- the weight grid holds the weight of every listed cell at `(row - rows_start, col - cols_start)`, its row and
 column in the parent grid shifted by the recorded starts -/
 theorem intersect_weight_placed {coarse fine : Geom α} {cells : List Int} {a : AreaGrid α}
-    (hc : 0 < coarse.ncols) (h : intersect coarse fine cells = .ok a) {k : Int} {w : α}
+    (h : intersect coarse fine cells = .ok a) {k : Int} {w : α}
     (hkw : (k, w) ∈ a.keys.zip a.weights) :
     0 ≤ prow coarse k - a.rowStart ∧ 0 ≤ pcol coarse k - a.colStart ∧
     a.at (prow coarse k - a.rowStart).toNat (pcol coarse k - a.colStart).toNat = some w := by
+  have hc := (intersect_ok_dims h).2
   obtain ⟨kw0, rest, heq, -, -, -, -, -, -, -, -, hnr, hnc, hd⟩ := intersect_eq_ok h
   rw [(intersect_lists h).1, heq] at hkw
   have hkm : k ∈ a.keys := by
@@ -444,11 +515,13 @@ theorem intersect_subgrid_corner {coarse fine : Geom α} {cells : List Int} {a :
 /-- cell `(i, j)` of the weight grid is the parent cell `(i + rows_start, j + cols_start)`: that parent cell
 exists and both have the same centre (hence, with the common cell size, the same footprint) -/
 theorem intersect_subgrid_cell_centre {coarse fine : Geom α} {cells : List Int} {a : AreaGrid α}
-    (hcsz : 0 < coarse.csz) (hc : 0 < coarse.ncols) (h : intersect coarse fine cells = .ok a) {i j : Int}
+    (hcsz : 0 < coarse.csz) (h : intersect coarse fine cells = .ok a) {i j : Int}
     (hi : 0 ≤ i ∧ i < a.nrows) (hj : 0 ≤ j ∧ j < a.ncols) :
     validCell coarse.nrows coarse.ncols ((i + a.rowStart) * coarse.ncols + (j + a.colStart)) = true ∧
-    getcoord (⟨a.nrows, a.ncols, a.xll, a.yll, coarse.csz⟩ : Geom α) (i * a.ncols + j) =
+    getcoord (⟨a.nrows, a.ncols, a.xll, a.yll, a.csz⟩ : Geom α) (i * a.ncols + j) =
       getcoord coarse ((i + a.rowStart) * coarse.ncols + (j + a.colStart)) := by
+  have hc := (intersect_ok_dims h).2
+  rw [(intersect_parent_attributes h).1]
   obtain ⟨-, ⟨k1, hk1, e1⟩, ⟨k2, hk2, e2⟩, ⟨k3, hk3, e3⟩, ⟨k4, hk4, e4⟩, hnr, hnc, -⟩ := intersect_subgrid_range h
   have hvk : ∀ k ∈ a.keys, validCell coarse.nrows coarse.ncols k = true := by
     intro k hk
@@ -494,14 +567,14 @@ theorem intersect_result_nodup {coarse fine : Geom α} {cells : List Int} {a : A
 
 /-- every returned weight is the ratio of cell areas times the number of catchment cells whose centre lies in the
 footprint of its grid cell -/
-theorem intersect_result_weight {coarse fine : Geom α} (hcsz : 0 < coarse.csz) (hc : 0 < coarse.ncols)
+theorem intersect_result_weight {coarse fine : Geom α} (hcsz : 0 < coarse.csz)
     {cells : List Int} {a : AreaGrid α} (h : intersect coarse fine cells = .ok a) {k : Int} {w : α}
     (hkw : (k, w) ∈ a.keys.zip a.weights) :
     w = (fine.csz / coarse.csz) ^ 2 *
       ((cells.countP fun c => validCell fine.nrows fine.ncols c &&
         decide (InFootprint coarse k (getcoord fine c).1 (getcoord fine c).2) : Nat) : α) := by
   rw [(intersect_lists h).1] at hkw
-  exact intersect_weight_counts_centres_any hcsz hc hkw
+  exact intersect_weight_counts_centres_any hcsz hkw
 
 /-- the returned weights times the grid-cell area sum to the area of the catchment cells whose centre lies in the
 grid -/
@@ -518,7 +591,7 @@ theorem intersect_result_area {coarse fine : Geom α} (hcsz : 0 < coarse.csz)
 /-- and so does the weight grid: the sum of all its entries is the sum of the weights (each weight placed once,
 zero elsewhere) — stated through the entries: an entry is a listed weight or 0 -/
 theorem intersect_entry_cases {coarse fine : Geom α} {cells : List Int} {a : AreaGrid α}
-    (hc : 0 < coarse.ncols) (h : intersect coarse fine cells = .ok a) {i j : Nat}
+    (h : intersect coarse fine cells = .ok a) {i j : Nat}
     (hi : i < a.nrows.toNat) (hj : j < a.ncols.toNat) :
     (∃ k w, (k, w) ∈ a.keys.zip a.weights ∧ prow coarse k = a.rowStart + i ∧ pcol coarse k = a.colStart + j ∧
         a.at i j = some w) ∨
@@ -532,7 +605,7 @@ theorem intersect_entry_cases {coarse fine : Geom α} {cells : List Int} {a : Ar
     have hz : (a.keys[n], a.weights[n]) ∈ a.keys.zip a.weights := by
       rw [List.mem_iff_getElem]
       exact ⟨n, by simp [hn, hn'], by simp⟩
-    obtain ⟨-, -, hat⟩ := intersect_weight_placed hc h hz
+    obtain ⟨-, -, hat⟩ := intersect_weight_placed h hz
     refine ⟨_, _, hz, hr, hcl, ?_⟩
     rw [hr, hcl] at hat
     simpa using hat
@@ -551,19 +624,42 @@ theorem catchment_intersect_selects (ca : Catchment α) (grid : Geom α) (filled
   unfold Catchment.intersect
   rw [hsel]
 
+/-- `catchment.intersect(grid)` without `filled` intersects the delineated (unfilled) area -/
+theorem catchment_intersect_default (ca : Catchment α) (grid : Geom α) {cells : List Int}
+    (hsel : ca.area = some cells) : ca.intersectDefault grid = intersect grid ca.fine cells :=
+  catchment_intersect_selects ca grid false hsel
+
 /-- on a catchment whose selected list is `None` (not delineated) `intersect` fails (numpy `TypeError`), and that
 is the only additional failure -/
 theorem catchment_intersect_error_iff (ca : Catchment α) (grid : Geom α) (filled : Bool) (e : Err) :
     ca.intersect grid filled = .error e ↔
       (e = .cellsNone ∧ (if filled then ca.filled else ca.area) = none) ∨
-      ∃ cells, (if filled then ca.filled else ca.area) = some cells ∧ e = .noOverlap ∧
-        ∀ c ∈ cells, cellOfPt grid (cell2coord ca.fine c) < 0 := by
+      ∃ cells, (if filled then ca.filled else ca.area) = some cells ∧
+        ((e = .badBuffer ∧ grid.nrows * grid.ncols < 0) ∨
+         (e = .noOverlap ∧ 0 ≤ grid.nrows * grid.ncols ∧ ∀ c ∈ cells, cellOfPt grid (cell2coord ca.fine c) < 0)) := by
   unfold Catchment.intersect
   cases hsel : (if filled then ca.filled else ca.area) with
   | none => simp [eq_comm]
   | some cells =>
     simp only [reduceCtorEq, and_false, false_or, Option.some.injEq, exists_eq_left']
     exact intersect_error_iff grid ca.fine cells e
+
+/-- the property as an executable statement (`specWeight`, `specArea` of `Model/C16.lean`, run by the driver next to
+the model): every returned weight is the number of catchment cells with their centre in the half-open footprint of
+its cell times the ratio of cell areas, and the weights times the grid-cell area sum to the catchment area inside
+the grid -/
+theorem intersect_matches_spec {coarse fine : Geom α} (hcsz : 0 < coarse.csz)
+    {cells : List Int} {a : AreaGrid α} (h : intersect coarse fine cells = .ok a) :
+    (∀ k w, (k, w) ∈ a.keys.zip a.weights → w = specWeight coarse fine cells k) ∧
+    (a.weights.map fun w => w * (coarse.csz * coarse.csz)).sum = specArea coarse fine cells := by
+  constructor
+  · intro k w hkw
+    rw [intersect_result_weight hcsz h hkw]
+    unfold specWeight
+    rw [specCount_eq, ofInt_eq, Int.cast_natCast, sq]
+  · rw [intersect_result_area hcsz h]
+    unfold specArea
+    rw [specInside_eq, ofInt_eq, Int.cast_natCast]
 
 end Python
 
@@ -740,10 +836,409 @@ theorem voronoiPy_flat_pair (g : Geom α) (cells : List Int) (x y : α) :
 
 end Voronoi
 
+/-! ### F. rounded arithmetic: what stays true of the floating-point computation itself
+
+`Fl r` (`Lemmas/C16Rnd.lean`) is the model's numeric type with every `+ - * /` rounded by a monotone, idempotent
+rounding operator `r.rnd` that is exact on the naturals `0 .. r.N` — IEEE-754 round-to-nearest on doubles is one
+(`N = 2^53`). The generic model text instantiates at `Fl r` as it does at `Float`. -/
+
+section Rounded
+variable {α : Type} [Field α] [LinearOrder α] [IsStrictOrderedRing α] [FloorRing α] {r : Rounding α}
+
+/-- the area factor computed in rounded arithmetic is non-negative, and every listed weight is at least the area
+factor: no weight is negative or smaller than one cell's share, whatever the rounding -/
+theorem cIntersect_rounded_weight_ge (g : Geom (Fl r)) (ca : Fl r) (pts : List (Option (Fl r × Fl r))) {k : Int}
+    {w : Fl r} (h : (k, w) ∈ cIntersect g ca pts) :
+    0 ≤ (areafactor g.csz ca).val ∧ (areafactor g.csz ca).val ≤ w.val := by
+  have h0 : 0 ≤ (areafactor g.csz ca).val := by
+    unfold areafactor
+    rw [Fl.mul_val]
+    exact Fl.rnd_nonneg (mul_self_nonneg _)
+  obtain ⟨n, -, rfl⟩ := cIntersect_weight_repAdd g ca pts h
+  exact ⟨h0, repAdd_val_ge _ h0 n⟩
+
+/-- a cell holding at least as many centres as another one has at least its weight (rounding never reverses the
+order of two weights) -/
+theorem cIntersect_rounded_weight_mono (g : Geom (Fl r)) (ca : Fl r) (pts : List (Option (Fl r × Fl r)))
+    {k k' : Int} {w w' : Fl r} (h : (k, w) ∈ cIntersect g ca pts) (h' : (k', w') ∈ cIntersect g ca pts)
+    (hle : (pts.map (cellOfPt g)).count k ≤ (pts.map (cellOfPt g)).count k') : w.val ≤ w'.val := by
+  have h0 := (cIntersect_rounded_weight_ge g ca pts h).1
+  obtain ⟨n, hn, rfl⟩ := cIntersect_weight_repAdd g ca pts h
+  obtain ⟨n', hn', rfl⟩ := cIntersect_weight_repAdd g ca pts h'
+  exact repAdd_val_monotone _ h0 (by omega)
+
+/-- the rounding of the repeated addition, bounded: with a relative error `u` per operation the weight of a cell
+holding `n + 1` centres is within `((1+u)^n - 1) (n+1) af` of `(n+1) af`, `af` the computed area factor
+(`u = 2^-53`, `n + 1 <= 144`: a relative `1.6e-14`, inside the oracle's `1e-11`) -/
+theorem cIntersect_rounded_weight_error (g : Geom (Fl r)) (ca : Fl r) (pts : List (Option (Fl r × Fl r))) {k : Int}
+    {w : Fl r} (h : (k, w) ∈ cIntersect g ca pts) {u : α} (hu : 0 ≤ u) (herr : ∀ x, |r.rnd x - x| ≤ u * |x|) :
+    ∃ n, (pts.map (cellOfPt g)).count k = n + 1 ∧
+      |w.val - ((n : α) + 1) * (areafactor g.csz ca).val| ≤
+        ((1 + u) ^ n - 1) * (((n : α) + 1) * (areafactor g.csz ca).val) := by
+  have h0 := (cIntersect_rounded_weight_ge g ca pts h).1
+  obtain ⟨n, hn, rfl⟩ := cIntersect_weight_repAdd g ca pts h
+  exact ⟨n, hn, repAdd_val_error _ h0 hu herr n⟩
+
+/-- locating centres in rounded arithmetic is monotone (cell size > 0): of two accepted points, the one further
+right is never placed in a column further left, the one further up never in a row further down — whatever the
+rounding of `(x - xll) / csz`, a centre can only be moved across an edge it (nearly) sits on, never past another
+centre's cell -/
+theorem cellOfPt_rounded_mono (g : Geom (Fl r)) (hcsz : 0 < g.csz.val) {x x' y y' : Fl r}
+    (hx : x.val ≤ x'.val) (hy : y.val ≤ y'.val)
+    (h : 0 ≤ cellOfPt g (some (x, y))) (h' : 0 ≤ cellOfPt g (some (x', y'))) :
+    colOf g.ncols (cellOfPt g (some (x, y))) ≤ colOf g.ncols (cellOfPt g (some (x', y'))) ∧
+    rowOf g.ncols (cellOfPt g (some (x', y'))) ≤ rowOf g.ncols (cellOfPt g (some (x, y))) :=
+  coord2cell_rounded_mono_aux g hcsz hx hy h h'
+
+/-- Voronoi in rounded arithmetic, any distance function (the computed one): as long as the number of cells is
+representable (`<= N`), the counts are exact integers and weight `j` is the *rounded* fraction
+`rnd (count_j / ncells)` of the cells whose computed distances credit point `j` -/
+theorem cVoronoi_rounded_weight (dist : Fl r → Fl r → Fl r) (g : Geom (Fl r)) {cells : List Int}
+    {pts : List (Fl r × Fl r)} (hcells : cells ≠ []) (hN : cells.length ≤ r.N) {ws : List (Option (Fl r))}
+    (h : cVoronoi dist g cells pts = .ok ws) :
+    ws.length = pts.length ∧ ∀ j, j < pts.length → ∃ x : Fl r, ws[j]? = some (some x) ∧
+      x.val = r.rnd (((cells.countP fun c => decide (nearest (dists dist g pts c) = j) : ℕ) : α) / (cells.length : α)) := by
+  have hp : ¬ pts.length < 1 := by
+    intro hp; unfold cVoronoi at h; rw [if_pos hp] at h; cases h
+  have hg : ¬ (g.nrows < 1 ∨ g.ncols < 1) := by
+    intro hg; unfold cVoronoi at h; rw [if_neg hp, if_pos hg] at h; cases h
+  have hc : ¬ cells.length = 0 := by rw [List.length_eq_zero_iff]; exact hcells
+  unfold cVoronoi at h
+  rw [if_neg hp, if_neg hg, if_neg hc] at h
+  injection h with h
+  subst h
+  refine ⟨by simp [counts, foldl_incr_length'], ?_⟩
+  intro j hj
+  have hv := foldl_incr_val (r := r) (fun c => nearest (dists dist g pts c)) cells (pts.map fun _ => (0 : Fl r)) j
+    (by
+      intro w hw
+      obtain ⟨p, -, rfl⟩ := List.mem_map.1 hw
+      exact ⟨0, by simp, by simpa using hN⟩)
+  have hlen : (counts dist g cells pts).length = pts.length := by simp [counts, foldl_incr_length']
+  obtain ⟨cj, hcj⟩ : ∃ cj, (counts dist g cells pts)[j]? = some cj :=
+    ⟨(counts dist g cells pts)[j]'(by omega), List.getElem?_eq_getElem (by omega)⟩
+  have hcjv : cj.val = ((cells.countP fun c => decide (nearest (dists dist g pts c) = j) : ℕ) : α) := by
+    unfold counts at hcj
+    rw [hcj] at hv
+    simp only [List.getElem?_map, List.getElem?_eq_getElem hj, Option.map_some, Fl.zero_val, zero_add,
+      Option.some.injEq] at hv
+    exact hv
+  refine ⟨cj / C07.Trunc.ofInt (cells.length : Int), ?_, ?_⟩
+  · rw [List.getElem?_map, hcj]; rfl
+  · rw [Fl.div_val, hcjv, Fl.ofInt_natCast_val _ hN]
+
+/-- every Voronoi weight computed in rounded arithmetic lies in `[0, 1]` -/
+theorem cVoronoi_rounded_range (dist : Fl r → Fl r → Fl r) (g : Geom (Fl r)) {cells : List Int}
+    {pts : List (Fl r × Fl r)} (hcells : cells ≠ []) (hN : cells.length ≤ r.N) {ws : List (Option (Fl r))}
+    (h : cVoronoi dist g cells pts = .ok ws) : ∀ w ∈ ws, ∃ x : Fl r, w = some x ∧ 0 ≤ x.val ∧ x.val ≤ 1 := by
+  obtain ⟨hlen, hw⟩ := cVoronoi_rounded_weight dist g hcells hN h
+  intro w hwm
+  obtain ⟨j, hj, rfl⟩ := List.getElem_of_mem hwm
+  obtain ⟨x, hx, hxv⟩ := hw j (by omega)
+  rw [List.getElem?_eq_getElem hj] at hx
+  injection hx with hx
+  have hn : (0 : α) < (cells.length : α) := by
+    have : 0 < cells.length := List.length_pos_iff.2 hcells
+    exact_mod_cast this
+  have hcnt : ((cells.countP fun c => decide (nearest (dists dist g pts c) = j) : ℕ) : α) ≤ (cells.length : α) := by
+    exact_mod_cast List.countP_le_length
+  refine ⟨x, hx, ?_, ?_⟩
+  · rw [hxv]; exact Fl.rnd_nonneg (div_nonneg (Nat.cast_nonneg _) hn.le)
+  · rw [hxv]
+    have := r.mono ((div_le_one hn).2 hcnt)
+    rwa [Fl.rnd_one] at this
+
+/-- the Voronoi weights computed in rounded arithmetic sum (exactly, as field elements) to 1 within one relative
+rounding error `u` — the tolerance of the oracle (`1e-12`) is far above `2^-53` -/
+theorem cVoronoi_rounded_sum (dist : Fl r → Fl r → Fl r) (g : Geom (Fl r)) {cells : List Int}
+    {pts : List (Fl r × Fl r)} (hcells : cells ≠ []) (hN : cells.length ≤ r.N) {ws : List (Option (Fl r))}
+    (h : cVoronoi dist g cells pts = .ok ws) {u : α} (herr : ∀ x, |r.rnd x - x| ≤ u * |x|) :
+    |(ws.map fun w => ((w.map Fl.val).getD 0 : α)).sum - 1| ≤ u := by
+  obtain ⟨hlen, hw⟩ := cVoronoi_rounded_weight dist g hcells hN h
+  have hp : pts ≠ [] := by
+    rintro rfl
+    unfold cVoronoi at h
+    simp at h
+  set cnt : ℕ → ℕ := fun j => cells.countP fun c => decide (nearest (dists dist g pts c) = j) with hcnt
+  have hn : (cells.length : α) ≠ 0 := by
+    have : cells.length ≠ 0 := fun e => hcells (List.length_eq_zero_iff.1 e)
+    exact_mod_cast this
+  have hlist : (ws.map fun w => ((w.map Fl.val).getD 0 : α)) =
+      ((List.range pts.length).map fun j => ((cnt j : ℕ) : α) / (cells.length : α)).map r.rnd := by
+    apply List.ext_getElem?
+    intro j
+    by_cases hj : j < pts.length
+    · obtain ⟨x, hx, hxv⟩ := hw j hj
+      simp only [List.getElem?_map, hx, Option.map_some, Option.getD_some, hxv,
+        List.getElem?_range hj]
+      rfl
+    · rw [List.getElem?_eq_none (by simp; omega), List.getElem?_eq_none (by simp; omega)]
+  have hsum : ((List.range pts.length).map fun j => ((cnt j : ℕ) : α) / (cells.length : α)).sum = 1 := by
+    have h1 := sum_countP_eq_length (fun c => nearest (dists dist g pts c)) cells pts.length (by
+      intro c _
+      have hne : dists dist g pts c ≠ [] := by unfold dists; simpa using hp
+      have := nearest_lt_length hne
+      simpa [dists] using this)
+    have h2 : ((List.range pts.length).map fun j => ((cnt j : ℕ) : α) / (cells.length : α)) =
+        ((List.range pts.length).map fun j => ((cnt j : ℕ) : α)).map fun x => x / (cells.length : α) := by
+      rw [List.map_map]; rfl
+    rw [h2, sum_map_div]
+    have hcast : ∀ l : List ℕ, (l.map fun n => ((n : ℕ) : α)).sum = ((l.sum : ℕ) : α) := by
+      intro l
+      induction l with
+      | nil => simp
+      | cons x t ih => simp only [List.map_cons, List.sum_cons, ih, Nat.cast_add]
+    have h3 : ((List.range pts.length).map fun j => ((cnt j : ℕ) : α)).sum =
+        (((List.range pts.length).map cnt).sum : ℕ) := by
+      rw [← hcast, List.map_map]; rfl
+    rw [h3]
+    have h4 : ((List.range pts.length).map cnt).sum = cells.length := h1
+    rw [h4, div_self hn]
+  rw [hlist]
+  have := abs_sum_rnd_sub_le (r := r) herr
+    ((List.range pts.length).map fun j => ((cnt j : ℕ) : α) / (cells.length : α)) (by
+      intro x hx
+      obtain ⟨j, -, rfl⟩ := List.mem_map.1 hx
+      exact div_nonneg (Nat.cast_nonneg _) (Nat.cast_nonneg _))
+  rw [hsum, mul_one] at this
+  exact this
+
+/-- the credited point, in rounded arithmetic: the one whose *computed* distance is smallest, the lowest index among
+equal computed distances (`nearest_is_closest_lowest_index` needs only the order of the distances) -/
+theorem nearest_rounded_is_first_argmin (ds : List (Fl r)) (hne : ds ≠ []) (j : Nat) :
+    nearest ds = j ↔ ∃ m, ds[j]? = some m ∧ (∀ (k : Nat) (x : Fl r), ds[k]? = some x → m.val ≤ x.val) ∧
+      (∀ (k : Nat) (x : Fl r), k < j → ds[k]? = some x → m.val < x.val) :=
+  nearest_eq_iff hne j
+
+end Rounded
+
+/-! ### G. histories: calls on live objects, between edits, clones and combinations (any arithmetic) -/
+
+section Histories
+variable {α : Type} [Add α] [Sub α] [Mul α] [Div α] [OfNat α 0] [OfNat α 1] [LT α] [DecidableLT α] [C07.Trunc α]
+variable (dist : α → α → α)
+
+/-- a call (`intersect`, `voronoi`) and an in-place edit of anything a call returned change no object -/
+theorem hstep_call_keeps_objects (w : World α) (op : Op α) (h : op.isMutator = false) : (hstep dist w op).1 = w := by
+  cases op <;> simp [Op.isMutator] at h <;> simp only [hstep]
+  · split <;> rfl
+  · split <;> rfl
+
+/-- a rejected operation changes no object -/
+theorem hstep_rejected_keeps_objects (w : World α) (op : Op α) (e : HErr)
+    (h : (hstep dist w op).2 = .rejected e) : (hstep dist w op).1 = w := by
+  cases op <;> simp only [hstep, combine] at h ⊢
+  all_goals (repeat' split) <;> first | rfl | (exfalso; simp_all)
+
+/-- the objects a history ends with depend on its mutators only: calls can be removed from, or inserted into, a
+history without changing what later calls see -/
+theorem hfinal_eq_filter (w : World α) (ops : List (Op α)) :
+    hfinal dist w ops = hfinal dist w (ops.filter Op.isMutator) := by
+  unfold hfinal
+  induction ops generalizing w with
+  | nil => rfl
+  | cons op t ih =>
+    rw [List.foldl_cons, List.filter_cons]
+    cases hm : op.isMutator with
+    | true => simp only [if_true, List.foldl_cons]; exact ih _
+    | false =>
+      simp only [Bool.false_eq_true, if_false]
+      rw [hstep_call_keeps_objects dist w op hm]
+      exact ih w
+
+theorem hrun_length (w : World α) (ops : List (Op α)) : (hrun dist w ops).length = ops.length := by
+  induction ops generalizing w with
+  | nil => rfl
+  | cons op t ih => simp [hrun, ih]
+
+/-- the answer of an operation anywhere in a history is the answer of that operation on the objects left by the
+*mutators* before it: no answer depends on which calls were made earlier, how often, or what was done to their results -/
+theorem hrun_reply (w : World α) (pre post : List (Op α)) (op : Op α) :
+    (hrun dist w (pre ++ op :: post))[pre.length]? =
+      some (hstep dist (hfinal dist w (pre.filter Op.isMutator)) op).2 := by
+  rw [← hfinal_eq_filter]
+  unfold hfinal
+  induction pre generalizing w with
+  | nil => simp [hrun]
+  | cons p t ih =>
+    simp only [List.cons_append, hrun, List.length_cons, List.getElem?_cons_succ, List.foldl_cons]
+    exact ih _
+
+/-- what `intersect` answers in a history is `Catchment.intersect` of the model on the catchment and the grid as
+they are at that moment; every theorem of parts A-D applies to it -/
+theorem history_intersect_reply (w : World α) (pre post : List (Op α)) (i j : Nat) (filled : Bool)
+    {c : Catchment α} {g : Geom α}
+    (hc : (hfinal dist w (pre.filter Op.isMutator)).cats[i]? = some c)
+    (hg : (hfinal dist w (pre.filter Op.isMutator)).grids[j]? = some g) :
+    (hrun dist w (pre ++ Op.intersect i j filled :: post))[pre.length]? = some (.isect (c.intersect g filled)) := by
+  rw [hrun_reply]
+  simp only [hstep, hc, hg]
+
+/-- and what `voronoi` answers is `voronoiPy` on the unfilled area, the flow-direction grid and the points as they
+are at that moment -/
+theorem history_voronoi_reply (w : World α) (pre post : List (Op α)) (i : Nat) {c : Catchment α}
+    (hc : (hfinal dist w (pre.filter Op.isMutator)).cats[i]? = some c) :
+    (hrun dist w (pre ++ Op.voronoi i :: post))[pre.length]? =
+      some (.vor (voronoiPy dist c.fine c.area
+        (.rows 2 ((hfinal dist w (pre.filter Op.isMutator)).pts.map fun p => [p.1, p.2])))) := by
+  rw [hrun_reply]
+  simp only [hstep, hc]
+
+/-- objects are independent: an operation changes at most the object it names (`setFlowdir i`, `setCells i`:
+catchment `i`; `setGrid j`: grid `j`); clones and combinations only append. A clone is not affected by later
+edits of the original, nor the original by edits of the clone -/
+theorem hstep_other_objects (w : World α) (op : Op α) :
+    (∀ k, k < w.cats.length → (∀ g, op ≠ .setFlowdir k g) → (∀ a f, op ≠ .setCells k a f) →
+      (hstep dist w op).1.cats[k]? = w.cats[k]?) ∧
+    (∀ k, k < w.grids.length → (∀ g, op ≠ .setGrid k g) → (hstep dist w op).1.grids[k]? = w.grids[k]?) := by
+  refine ⟨?_, ?_⟩
+  · intro k hk h1 h2
+    cases op <;> simp only [hstep, combine]
+    case setGrid j g => split <;> rfl
+    case setFlowdir i g =>
+      split
+      · have : k ≠ i := by rintro rfl; exact h1 g rfl
+        exact setAt_getElem?_ne _ _ _ _ this
+      · rfl
+    case setCells i a f =>
+      split
+      · have : k ≠ i := by rintro rfl; exact h2 a f rfl
+        exact setAt_getElem?_ne _ _ _ _ this
+      · rfl
+    case cloneCat i =>
+      split
+      · exact List.getElem?_append_left hk
+      · rfl
+    case cloneGrid j => split <;> rfl
+    case addCat i k' =>
+      split
+      · split
+        · exact List.getElem?_append_left hk
+        · rfl
+      · rfl
+    case subCat i k' =>
+      split
+      · split
+        · exact List.getElem?_append_left hk
+        · rfl
+      · rfl
+    case intersect i j f => split <;> rfl
+    case voronoi i => split <;> rfl
+  · intro k hk h1
+    cases op <;> simp only [hstep, combine]
+    case setGrid j g =>
+      split
+      · have : k ≠ j := by rintro rfl; exact h1 g rfl
+        exact setAt_getElem?_ne _ _ _ _ this
+      · rfl
+    case setFlowdir i g => split <;> rfl
+    case setCells i a f => split <;> rfl
+    case cloneCat i => split <;> rfl
+    case cloneGrid j =>
+      split
+      · exact List.getElem?_append_left hk
+      · rfl
+    case addCat i k' =>
+      split
+      · split <;> rfl
+      · rfl
+    case subCat i k' =>
+      split
+      · split <;> rfl
+      · rfl
+    case intersect i j f => split <;> rfl
+    case voronoi i => split <;> rfl
+
+end Histories
+
+section HistoriesExact
+variable {α : Type} [Field α] [LinearOrder α] [IsStrictOrderedRing α] [FloorRing α] (dist : α → α → α)
+
+/-- the property over arbitrary histories: whatever was done before (edits, re-assignments, clones, combinations,
+rejected operations, other calls and edits of their results), an `intersect` that succeeds lists every grid cell
+once and its weights times the grid-cell area sum to the area of the catchment cells — of the catchment as it is
+at that moment — whose centre lies in the grid as it is at that moment -/
+theorem history_intersect_conserves_area (w : World α) (pre post : List (Op α)) (i j : Nat) (filled : Bool)
+    {c : Catchment α} {g : Geom α} {cells : List Int} {a : AreaGrid α}
+    (hc : (hfinal dist w (pre.filter Op.isMutator)).cats[i]? = some c)
+    (hg : (hfinal dist w (pre.filter Op.isMutator)).grids[j]? = some g)
+    (hsel : (if filled then c.filled else c.area) = some cells) (hcsz : 0 < g.csz)
+    (hr : (hrun dist w (pre ++ Op.intersect i j filled :: post))[pre.length]? = some (.isect (.ok a))) :
+    a.keys.Nodup ∧
+    (a.weights.map fun x => x * (g.csz * g.csz)).sum =
+      ((cells.countP fun k => validCell c.fine.nrows c.fine.ncols k &&
+        decide (InExtent g (getcoord c.fine k).1 (getcoord c.fine k).2) : Nat) : α) * (c.fine.csz * c.fine.csz) := by
+  rw [history_intersect_reply dist w pre post i j filled hc hg, catchment_intersect_selects c g filled hsel] at hr
+  injection hr with hr
+  injection hr with hr
+  exact ⟨intersect_result_nodup hr, intersect_result_area hcsz hr⟩
+
+/-- `Catchment.__add__`: when both catchments have an area, the area of the sum holds a cell exactly when one of
+the two *filled* areas does, each cell once, in increasing order; flow-direction grid and filled area are those of
+the left operand -/
+theorem catchment_add_area {a b c : Catchment α} {fa fb : List Int} (ha : a.area.isSome) (hb : b.area.isSome)
+    (hfa : a.filled = some fa) (hfb : b.filled = some fb) (h : Catchment.add a b = .ok c) :
+    c.fine = a.fine ∧ c.filled = a.filled ∧
+    ∃ l, c.area = some l ∧ l.Pairwise (· < ·) ∧ ∀ x, x ∈ l ↔ x ∈ fa ∨ x ∈ fb := by
+  unfold Catchment.add at h
+  cases haa : a.area with
+  | none => rw [haa] at ha; cases ha
+  | some la =>
+    cases hbb : b.area with
+    | none => rw [hbb] at hb; cases hb
+    | some lb =>
+      rw [haa, hbb, hfa, hfb] at h
+      simp only [] at h
+      injection h with h
+      subst h
+      exact ⟨rfl, hfa.symm, _, rfl, sortDedup_sorted _, fun x => mem_union1d x fa fb⟩
+
+/-- `Catchment.__sub__`: the area of the difference holds the cells of the left filled area that are not in the
+right one, each once, in increasing order -/
+theorem catchment_sub_area {a b c : Catchment α} {fa fb : List Int}
+    (hfa : a.filled = some fa) (hfb : b.filled = some fb) (h : Catchment.sub a b = .ok c) :
+    c.fine = a.fine ∧ c.filled = a.filled ∧
+    ∃ l, c.area = some l ∧ l.Nodup ∧ ∀ x, x ∈ l ↔ x ∈ fa ∧ x ∉ fb := by
+  unfold Catchment.sub at h
+  rw [hfa, hfb] at h
+  simp only [] at h
+  injection h with h
+  subst h
+  exact ⟨rfl, hfa.symm, _, rfl, setdiff1d_nodup _ _, fun x => mem_setdiff1d x fa fb⟩
+
+end HistoriesExact
+
+/-! ### the hypothesis `0 < cell size` is needed and is not guarded by the code -/
+
+attribute [local instance 2000] C07.fieldTrunc
+
+/-- `Grid.cellsize` is a plain attribute: nothing rejects a negative value. With `csz = -1` the kernel accepts the
+point `(-1/2, -1/2)` into cell 0 of a one-cell grid whose footprint (as `[left, left + csz)`) and extent are empty:
+the characterisations `cellOfPt_nonneg_iff` / `cellOfPt_eq_iff` fail without `0 < csz` (the harness probes the real
+code on grids with negative and zero cell size: stream `degenerate`) -/
+theorem cellOfPt_iff_needs_pos_csz :
+    ∃ g : Geom ℚ, g.csz < 0 ∧ 0 < g.ncols ∧ validCell g.nrows g.ncols 0 = true ∧
+      cellOfPt g (some (-1 / 2, -1 / 2)) = 0 ∧ ¬ InFootprint g 0 (-1 / 2) (-1 / 2) ∧ ¬ InExtent g (-1 / 2) (-1 / 2) := by
+  refine ⟨⟨1, 1, 0, 0, -1⟩, by norm_num, by decide, by decide, ?_, ?_, ?_⟩
+  · show coord2cell (⟨1, 1, 0, 0, -1⟩ : Geom ℚ) (-1 / 2) (-1 / 2) = 0
+    unfold coord2cell
+    simp only [floorToInt_eq]
+    have : ⌊((-1 / 2 : ℚ) - 0) / -1⌋ = 0 := by
+      rw [Int.floor_eq_iff]; norm_num
+    rw [this]
+    decide
+  · rintro ⟨h1, -⟩
+    have hc0 : colOf 1 0 = 0 := by decide
+    unfold cellLeft at h1
+    simp only [hc0] at h1
+    norm_num at h1
+  · rintro ⟨h1, -⟩
+    norm_num at h1
+
 /-! ### the hypotheses are satisfiable: a 6×6 catchment grid against a 2×3 grid of cell size 2 shifted by (1, 1) -/
 
-/- at `ℚ` the theorems' `Trunc` instance (cast, floor of the ordered field) is preferred over the driver's `truncRat` -/
-attribute [local instance 2000] C07.fieldTrunc
+/- at `ℚ` the theorems' `Trunc` instance (cast, floor of the ordered field) is preferred over the driver's `truncRat`
+(attribute set above) -/
 
 def exCoarse : Geom ℚ := ⟨2, 3, 1, 1, 2⟩
 def exFine : Geom ℚ := ⟨6, 6, 0, 0, 1⟩
@@ -780,7 +1275,11 @@ example : ∃ a, intersect exCoarse exFine [27, 28, 21, 0] = .ok a := by
   | ok a => exact ⟨a, rfl⟩
   | error e =>
     exfalso
-    have hneg := ((intersect_error_iff _ _ _ _).1 h).2 27 (by simp)
+    have hall : ∀ c ∈ [27, 28, 21, 0], cellOfPt exCoarse (cell2coord exFine c) < 0 := by
+      rcases (intersect_error_iff _ _ _ _).1 h with ⟨-, hn⟩ | ⟨-, -, hn⟩
+      · simp [exCoarse] at hn
+      · exact hn
+    have hneg := hall 27 (by simp)
     have hv : validCell exFine.nrows exFine.ncols 27 = true := by decide
     have h1 : colOf exFine.ncols 27 = 3 := by decide
     have h2 : rowOf exFine.ncols 27 = 4 := by decide
@@ -825,5 +1324,98 @@ example : nearest ([1, 1] : List ℚ) = 0 ∧ nearest ([2, 1, 1] : List ℚ) = 1
   constructor <;> simp [nearest, nearestLoop]
 
 example : ([(0, 0), (5, 5)] : List (ℚ × ℚ)) ≠ [] ∧ ([27, 28] : List Int) ≠ [] := by simp
+
+/-- `repAdd`: a cell met three times holds `(af + af) + af` -/
+example : repAdd (1 / 4 : ℚ) 2 = 3 / 4 := by norm_num [repAdd]
+
+/-- rounding operators exist: the identity (exact arithmetic, relative error `u = 0`, any `N`) … -/
+def exRndId : Rounding ℚ where
+  rnd := id
+  mono := monotone_id
+  idem := fun _ => rfl
+  N := 2 ^ 53
+  nat_exact := fun _ _ => rfl
+  one_le_N := by norm_num
+
+example : ∀ x : ℚ, |exRndId.rnd x - x| ≤ 0 * |x| := by intro x; simp [exRndId]
+
+/-- … and a proper one: rounding down to multiples of `1/8` (monotone, idempotent, exact on every natural) -/
+def exRndGrid : Rounding ℚ where
+  rnd := fun x => (⌊x * 8⌋ : ℚ) / 8
+  mono := by
+    intro a b hab
+    have : ⌊a * 8⌋ ≤ ⌊b * 8⌋ := Int.floor_le_floor (by linarith)
+    have h8 : (0 : ℚ) < 8 := by norm_num
+    exact div_le_div_of_nonneg_right (by exact_mod_cast this) h8.le
+  idem := by
+    intro x
+    have : ((⌊x * 8⌋ : ℚ) / 8) * 8 = (⌊x * 8⌋ : ℚ) := by field_simp
+    simp only [this, Int.floor_intCast]
+  N := 1000
+  nat_exact := by
+    intro n _
+    have : ((n : ℚ) * 8) = ((n * 8 : ℤ) : ℚ) := by push_cast; ring
+    simp only [this, Int.floor_intCast]
+    push_cast; field_simp
+  one_le_N := by norm_num
+
+/-- it does round: `0.3 -> 0.25`; a representable area factor and a cell list short enough for exact counts -/
+example : exRndGrid.rnd (3 / 10) = 1 / 4 := by
+  show ((⌊(3 / 10 : ℚ) * 8⌋ : ℚ) / 8) = 1 / 4
+  have : ⌊(3 / 10 : ℚ) * 8⌋ = 2 := by rw [Int.floor_eq_iff]; norm_num
+  rw [this]; norm_num
+
+example : ([27, 28] : List Int).length ≤ exRndGrid.N := by decide
+
+/-- a geometry in that rounded arithmetic with cell size > 0 and a point it accepts (hypotheses of part F) -/
+def exGeomFl : Geom (Fl exRndGrid) := ⟨1, 1, Fl.ofField 0, Fl.ofField 0, Fl.ofField 1⟩
+
+example : (0 : ℚ) < exGeomFl.csz.val ∧
+    0 ≤ cellOfPt exGeomFl (some ((Fl.ofField (1 / 2) : Fl exRndGrid), (Fl.ofField (1 / 2) : Fl exRndGrid))) := by
+  have e1 : exRndGrid.rnd 1 = 1 := Fl.rnd_one
+  have e0 : exRndGrid.rnd 0 = 0 := Fl.rnd_zero
+  have eh : exRndGrid.rnd (1 / 2) = 1 / 2 := by
+    show ((⌊(1 / 2 : ℚ) * 8⌋ : ℚ) / 8) = 1 / 2
+    have : ⌊(1 / 2 : ℚ) * 8⌋ = 4 := by rw [Int.floor_eq_iff]; norm_num
+    rw [this]; norm_num
+  have hv : ((((Fl.ofField (1 / 2) : Fl exRndGrid) - (Fl.ofField 0 : Fl exRndGrid)) / (Fl.ofField 1 : Fl exRndGrid)).val) = 1 / 2 := by
+    simp only [Fl.div_val, Fl.sub_val, Fl.ofField, e0, e1, eh, sub_zero, div_one]
+  have hf : (C07.Trunc.floorToInt (((Fl.ofField (1 / 2) : Fl exRndGrid) - (Fl.ofField 0 : Fl exRndGrid)) / (Fl.ofField 1 : Fl exRndGrid)) : Int) = 0 := by
+    show ⌊_⌋ = 0
+    rw [hv, Int.floor_eq_iff]; norm_num
+  refine ⟨?_, ?_⟩
+  · show (0 : ℚ) < exRndGrid.rnd 1
+    rw [e1]; norm_num
+  · show 0 ≤ coord2cell exGeomFl _ _
+    unfold coord2cell exGeomFl
+    simp only [hf]
+    decide
+
+/-- a history: call, clone, re-assign the grid, edit what was returned, a rejected operation, call on the clone -/
+def exWorld : World ℚ := ⟨[exCa], [exCoarse], [(0, 0), (5, 5)]⟩
+def exPre : List (Op ℚ) :=
+  [.intersect 0 0 true, .cloneCat 0, .setGrid 0 ⟨3, 3, 0, 0, 2⟩, .editReturned, .setCells 7 none none, .voronoi 0,
+   .setCells 0 none none]
+
+example : (hfinal (fun dx dy : ℚ => dx * dx + dy * dy) exWorld (exPre.filter Op.isMutator)).cats[1]? = some exCa ∧
+    (hfinal (fun dx dy : ℚ => dx * dx + dy * dy) exWorld (exPre.filter Op.isMutator)).cats[0]? =
+      some { exCa with area := none, filled := none } ∧
+    (hfinal (fun dx dy : ℚ => dx * dx + dy * dy) exWorld (exPre.filter Op.isMutator)).grids[0]? =
+      some ⟨3, 3, 0, 0, 2⟩ ∧
+    (if true then exCa.filled else exCa.area) = some [7, 8, 9, 13, 14, 15, 19, 20, 21] ∧
+    (0 : ℚ) < (⟨3, 3, 0, 0, 2⟩ : Geom ℚ).csz := by
+  refine ⟨rfl, rfl, rfl, rfl, by norm_num⟩
+
+/-- the rejected operation of that history is rejected, and the call made before the clone does not matter -/
+example : (hstep (fun dx dy : ℚ => dx * dx + dy * dy) exWorld (.setCells 7 none none)).2 = .rejected .noSuchObject ∧
+    Op.isMutator (.intersect 0 0 true : Op ℚ) = false ∧ Op.isMutator (.cloneCat 0 : Op ℚ) = true :=
+  ⟨rfl, rfl, rfl⟩
+
+/-- `Catchment.__add__` / `__sub__` on two delineated catchments -/
+example : (Catchment.add exCa ({ exCa with filled := some [14, 2] } : Catchment ℚ)).toOption.map (·.area) =
+      some (some [2, 7, 8, 9, 13, 14, 15, 19, 20, 21]) ∧
+    (Catchment.sub exCa ({ exCa with filled := some [14, 2, 7] } : Catchment ℚ)).toOption.map (·.area) =
+      some (some [8, 9, 13, 15, 19, 20, 21]) := by
+  constructor <;> decide
 
 end HydroVerif.C16
